@@ -4,7 +4,9 @@
    (served only while the counter of its key is positive), allowedAttachmentKey (sub-protocol V2: the digest; V3+: document + digest).
    C14, last clause: a replication client can download an attachment only while it is being sent a revision that references it.
      SendRev(d)   the gateway sends a revision of document d (d may be in flight more than once: counters)
-     Ack(d)       the client's reply to one in-flight `rev` of d has been processed
+     Ack(d)       the client's (successful) reply to one in-flight `rev` of d has been processed
+     RevRejected(d) the client answered one in-flight `rev` of d with an ERROR (it could not store the revision): the revision is
+                  no longer being sent, the entry is removed exactly as for Ack
      Get(d, c)    the client asks for the data of content c (V3: naming document d); out = [served, rd]
    Impl.. define the connection's table, Ghost.. the bag of revisions in flight. *)
 EXTENDS Integers, Sequences, FiniteSets, TLC
@@ -43,8 +45,11 @@ GhostGet == UNCHANGED <<flight, closedOK>>
 Step(a, d, c) == hist' = Append(hist, [a |-> a, d |-> d, c |-> c]) /\ UNCHANGED <<proto, refs>>
 SendRev(d) == Len(hist) < MaxSteps /\ flight[d] < MaxFlight /\ ImplSendRev(d) /\ GhostSendRev(d) /\ Step("Rev", d, 0)
 Ack(d)     == Len(hist) < MaxSteps /\ flight[d] > 0 /\ ImplAck(d) /\ GhostAck(d, TRUE) /\ Step("Ack", d, 0)
+ImplRevRejected(d) == ImplAck(d)
+GhostRevRejected(d, cl) == GhostAck(d, cl)
+RevRejected(d) == Len(hist) < MaxSteps /\ flight[d] > 0 /\ ImplRevRejected(d) /\ GhostRevRejected(d, TRUE) /\ Step("Rej", d, 0)
 Get(d, c)  == Len(hist) < MaxSteps /\ ImplGet(d, c) /\ GhostGet /\ Step("Get", d, c)
-Next == \E d \in Docs : SendRev(d) \/ Ack(d) \/ \E c \in Contents \cup {0} : Get(d, c)
+Next == \E d \in Docs : SendRev(d) \/ Ack(d) \/ RevRejected(d) \/ \E c \in Contents \cup {0} : Get(d, c)
 Spec == Init /\ [][Next]_vars
 
 (* C14: served exactly while some in-flight revision - of that document, for V3 - references the content; and with its bytes *)
